@@ -340,6 +340,11 @@ class EffectSystem:
                     lit = len(n.args) > 1 and isinstance(n.args[1], ast.Constant) and isinstance(n.args[1].value, str)
                     r = [("ext", f"{n.func.id}[{'literal-name' if lit else 'computed-name'}]")]
                 add(r, n.lineno, n)
+                if isinstance(n.func, ast.Attribute) and n.func.attr in ("format", "format_map") and not \
+                        (isinstance(n.func.value, ast.Constant) and isinstance(n.func.value.value, str)) and \
+                        any(x[0] == "ext" and x[1].startswith("<builtin-type>.") for x in (r or [])):
+                    # str.format on a template that is not a literal: replacement fields walk attribute / index chains chosen by the template
+                    sites.append(Site(qual, "external", "str.format[computed-template]", n.lineno, ("resolve-attr",)))
                 cod = self.codec_argument(n, r)
                 if cod is not None:
                     sites.append(Site(qual, "external", f"codec-lookup[{cod}]", n.lineno, () if cod == "literal-name" else ("import(computed-codec)",)))
